@@ -50,12 +50,21 @@ ComboScripts(flen, names) ==
 HistQs == { Q(lt, id, NmApp, TRUE, FALSE, fs) : lt \in 1..2, id \in 1..2, fs \in { <<>>, << FNode(<<"n1">>) >> } }
 HistScripts(n) == { << [a |-> "boot", tags |-> ComboTags] >> \o s : s \in [1..n -> HistQs] }
 
+\* wire-field boundaries: query ids 0 / 2^32-1 / 2^31 (model ids 0, 900, 901), each seen twice, with
+\* undefined flag bits 2 and 31 set besides every combination of the two defined ones
+WireScripts ==
+  { << [a |-> "boot", tags |-> ComboTags],
+       QX(1, 0, NmApp, ack, nb, fs, xf), QX(1, 900, NmApp, ack, nb, fs, xf), QX(1, 901, NmApp, ack, nb, fs, xf),
+       QX(1, 0, NmApp, ack, nb, fs, xf), QX(1, 900, NmApp, ack, nb, fs, xf) >> :
+     ack \in BOOLEAN, nb \in BOOLEAN, fs \in { <<>>, << FNode(<<"n1">>) >> }, xf \in { <<>>, <<2>>, <<31>>, <<2, 31>> } }
+
 Scripts ==
   CASE Slice = "pat"   -> PatScripts
     [] Slice = "combo" -> ComboScripts(2, AllNames)
     [] Slice = "quick" -> PatScripts \cup ComboScripts(1, AllNames) \cup ComboScripts(2, {NmApp}) \cup HistScripts(HL)
+                            \cup WireScripts
     [] Slice = "deep"  -> ComboScripts(3, {NmApp})
-    [] Slice = "hist"  -> HistScripts(HL)
+    [] Slice = "hist"  -> HistScripts(HL) \cup WireScripts
 
 GenInit == Init /\ script \in Scripts /\ hist = <<>>
 
